@@ -32,6 +32,11 @@ def tweak(rng, u):
     if 'ba:1' in names and 'ba:2' in names:
         # two versions sharing every synset id: one expands the other
         cfgs += [{'lexicon': 'ba:2', 'expand': 'ba:1'}, {'lexicon': 'ba:1', 'expand': 'ba:2'}]
+        # both versions expand a third lexicon at once: the same synset id then stands for different ILIs in the two
+        # expand lexicons (each borrowed relation is mapped by the ILI of its own target)
+        third = [n for n in names if not n.startswith('ba:') and not n.startswith('xa')]
+        for t in third[:2]:
+            cfgs += [{'lexicon': t, 'expand': 'ba:1 ba:2'}, {'lexicon': t, 'expand': 'ba:*'}]
     # make sure every kind of expand argument occurs
     base = rng.choice(names)
     others = [n for n in names if n != base] or [base]
